@@ -70,7 +70,9 @@ impl<T: Deref<Target = str>> Relativizer<T> {
     /// Relativize the given IRI against the base of this [`Relativizer`] if possible.
     pub fn relativize<'a>(&self, iri: Iri<&'a str>) -> Option<IriRef<Cow<'a, str>>> {
         let lcp = longest_common_prefix(&self.base, iri.as_str());
-        if lcp >= self.query_end {
+        if lcp >= self.query_end
+            && (iri.len() == self.query_end || iri[self.query_end..].starts_with('#'))
+        {
             // iri is identicical to base or differs in the fragment only.
             // regardless, we must include the fragment (if any) in the relative IRI.
             Some(IriRef::new_unchecked(iri[self.query_end..].into()))
